@@ -1,13 +1,16 @@
 (** Extraction of the executable model to OCaml.  ExtrOcamlBasic only: N,
-    positive, nat and byte stay the extracted inductives. *)
+    positive, nat and byte stay the extracted inductives; no Extract Constant,
+    no Extract Inductive beyond those ExtrOcamlBasic declares (bool, option,
+    unit, list, prod, sumbool, sumor). *)
 Require Extraction.
 Require Import ExtrOcamlBasic.
-From Age Require Import Base Base64 Format IO Stream Armor Bech32.
+From Age Require Import Base Base64 Format FormatIO IO Stream Armor Bech32 Prims Recipients Age.
 Extraction Blacklist List String Int Bytes.
 Extraction "model.ml"
-  Base.n2b Base.b2n Base.split_on Base.join_on
+  Base.n2b Base.b2n Base.split_on Base.join_on Base.dec_of_N
   Base64.b64_enc_raw Base64.b64_dec_raw Base64.b64_enc_std Base64.b64_dec_std
   Format.parse Format.marshal Format.marshal_stanza Format.read_stanza_bytes Format.marshal_without_mac
+  FormatIO.header_writes
   IO.src_read IO.read_full IO.sink_write IO.empty_sink IO.plain_src
   Stream.encrypt_spec Stream.decrypt_spec Stream.w_run Stream.w_init Stream.run_reader Stream.nonce_of
   Armor.armor_bytes Armor.armor_run Armor.aw_run Armor.aw_init Armor.dearmor_from Armor.dearmor Armor.normalize
@@ -15,4 +18,7 @@ Extraction "model.ml"
   Bech32.parse_identity Bech32.identity_string
   Bech32.encode_plugin_identity Bech32.parse_plugin_identity
   Bech32.encode_plugin_recipient Bech32.parse_plugin_recipient
-  Bech32.valid_plugin_name Bech32.new_identity_without_data Bech32.plugin_exe.
+  Bech32.valid_plugin_name Bech32.new_identity_without_data Bech32.plugin_exe
+  Prims.mkPrims Recipients.wrap Recipients.unwrap Recipients.unwrap_one
+  Age.plan_encrypt Age.file_bytes Age.encrypt_bytes Age.encrypt_session Age.armored_session
+  Age.encrypt_history Age.decrypt_open Age.decrypt_bytes Age.decrypt_src Age.label_rule Age.wrap_all.
